@@ -676,7 +676,7 @@ pub fn unwind_context(sseed: u64) -> Report {
         Err(CoalesceError::RecvError) => "RecvError".to_string(),
     };
     let mut steps = vec![];
-    let mut fail = |rep: &mut Report, sig: &str, msg: String| {
+    let fail = |rep: &mut Report, sig: &str, msg: String| {
         if rep.violations.is_empty() {
             rep.violate(format!("C11:unwind-context:{sig}"), msg);
         }
